@@ -1034,6 +1034,15 @@ func runC06(c *Ctx) {
 				continue
 			}
 			hits++
+			// (a quarter of them on claims that are also expired, or not valid yet: a rule violation blocks whatever the times say)
+			switch hits % 8 {
+			case 3:
+				cl.Claims().Expires = time.Now().Unix() - 1000 - int64(g.rng.Intn(100000))
+				c.count("violation_on_expired_claims")
+			case 7:
+				cl.Claims().NotBefore = time.Now().Unix() + 1000 + int64(g.rng.Intn(100000))
+				c.count("violation_on_not_yet_valid_claims")
+			}
 			o := observeValidate(cl)
 			c.sum.Evaluations++
 			c.sum.ImplChecks++
